@@ -42,10 +42,12 @@ func ToTriangles(
 	output := sdf.WriteTriangles(&wg, &triangles)
 	// Run the renderer.
 	r.Render(s, sdf.NewTriangle3Buffer(output))
+	verifEv("top.rendered", 0, 0, 0)
 	// Stop the writer reading on the channel.
 	close(output)
 	// Wait for the write to complete.
 	wg.Wait()
+	verifEv("top.return", 0, 0, 0)
 	// return all the triangles
 	return triangles
 }
@@ -63,15 +65,18 @@ func ToSTL(
 	var wg sync.WaitGroup
 	output, err := writeSTL(&wg, path)
 	if err != nil {
+		verifEv("top.createfail", 0, 0, 0)
 		fmt.Printf("%s", err)
 		return
 	}
 	// run the renderer
 	r.Render(s, sdf.NewTriangle3Buffer(output))
+	verifEv("top.rendered", 0, 0, 0)
 	// stop the STL writer reading on the channel
 	close(output)
 	// wait for the file write to complete
 	wg.Wait()
+	verifEv("top.return", 0, 0, 0)
 }
 
 //-----------------------------------------------------------------------------
@@ -87,15 +92,18 @@ func To3MF(
 	var wg sync.WaitGroup
 	output, err := write3MF(&wg, path)
 	if err != nil {
+		verifEv("top.createfail", 0, 0, 0)
 		fmt.Printf("%s", err)
 		return
 	}
 	// run the renderer
 	r.Render(s, sdf.NewTriangle3Buffer(output))
+	verifEv("top.rendered", 0, 0, 0)
 	// stop the STL writer reading on the channel
 	close(output)
 	// wait for the file write to complete
 	wg.Wait()
+	verifEv("top.return", 0, 0, 0)
 }
 
 //-----------------------------------------------------------------------------
@@ -111,15 +119,18 @@ func ToDXF(
 	var wg sync.WaitGroup
 	output, err := writeDXF(&wg, path)
 	if err != nil {
+		verifEv("top.createfail", 0, 0, 0)
 		fmt.Printf("%s", err)
 		return
 	}
 	// run the renderer
 	r.Render(s, sdf.NewLine2Buffer(output))
+	verifEv("top.rendered", 0, 0, 0)
 	// stop the DXF writer reading on the channel
 	close(output)
 	// wait for the file write to complete
 	wg.Wait()
+	verifEv("top.return", 0, 0, 0)
 }
 
 //-----------------------------------------------------------------------------
@@ -141,10 +152,12 @@ func ToSVG(
 	}
 	// run the renderer
 	r.Render(s, sdf.NewLine2Buffer(output))
+	verifEv("top.rendered", 0, 0, 0)
 	// stop the SVG writer reading on the channel
 	close(output)
 	// wait for the file write to complete
 	wg.Wait()
+	verifEv("top.return", 0, 0, 0)
 }
 
 //-----------------------------------------------------------------------------
